@@ -198,7 +198,7 @@ PROPS["C20"] = {
 }
 
 PROPS["C18"] = {
-    "test": "TestC18", "level": "exploration", "registered": True, "engine": "live", "race": True, "race_is_violation": True,
+    "test": "TestC18", "level": "exploration", "registered": True, "engine": "live", "race": True, "race_is_violation": True, "handler_panic_is_violation": True,
     "shards_quick": 8, "shards_thorough": 16, "timeout": 1500, "min_classes": 10,
     "technique": "Go race detector over a repeated real-concurrency stress (real sockets, 16 cores, hook jitter), crash attribution by journal, bounded-progress epilogue with goroutine-dump classifier",
     "level_text": "Per run a real Server on loopback with 6-12 real HTTP targets (flapping health endpoints, upgrade echo, slow paths), 16-55 clients (plain, cookie-bearing, POST, slow, upgraded) and 3-6 operators issuing every command (deploy with changing hosts/options/TLS, sub-path deploys that inherit TLS, rollout deploy/set/stop, pause, stop, resume, remove, list) on three service names, probe interval 5-20ms, random jitter at the hook points; 16 runs of 2.5s in quick, 200 in thorough, built with -race. A race report whose two stacks both contain repository frames is a violation (deduplicated by the innermost repository frame pair); a panic kills the child and is attributed by the journal; after each stress a fixed epilogue (list, resume, deploy, request, remove) must complete within a 60s watchdog, otherwise the goroutine dump decides between deadlock (violation) and inconclusive.",
